@@ -6,7 +6,9 @@ import Midgard.Spec.Sinex202
 /-! Driver for C14 (SINEX).
 
     c14 base <i,j,k…|all> <hexfile>     base-class parser declaring the listed `baseBlocks` (in that order)
-    c14 site|disc|events|tro <hexfile>
+    c14 site|disc|events|tro|tms <hexfile>
+    c14 ws <hexline>…                                 whitespace mode of `SinexTmsParser.parse_lines`
+    c14 cut <starts> <total> <hexline>…               fixed-width cutting + autostrip alone
     c14 lines <table> <blockIdx> <total> <hexline>…   `parse_lines` on single lines
     c14 epoch <hex> / c14 cell <conv> <hex>           one converter
 
@@ -39,8 +41,6 @@ def showResult (hdr : Row) (data : Val) : String :=
 
 def decodeText (h : String) : Option Str := (decodeHex? h).map ofString
 
-def snxTag : Str := "%=SNX".toList
-
 def pickBlocks (sel : String) : Option (List BlockDef) :=
   if sel = "all" then some baseBlocks
   else do
@@ -50,21 +50,13 @@ def pickBlocks (sel : String) : Option (List BlockDef) :=
 def sortTop (d : List (String × Val)) : List (String × Val) :=
   d.mergeSort fun a b => !(b.1 < a.1)
 
-def parseFileCmd (kind : String) (blocks : List BlockDef) (header : List FieldDef) (text : Str) : String :=
-  match readRaw snxTag header (fun _ => 81) blocks text with
+def showRes : Option Result → String
   | Option.none => "RAISES"
-  | some p =>
-    let data : Option Val :=
-      match kind with
-      | "base" => (assembleBase blocks p.raws).map .dict
-      | "site" => assembleSite blocks p.raws
-      | "disc" => assembleDisc blocks p.raws
-      | "events" => assembleDisc blocks p.raws
-      | "tro" => (assembleTro blocks p.raws).map fun d => .dict (sortTop d)
-      | _ => Option.none
-    match data with
-    | Option.none => "RAISES"
-    | some v => showResult p.hdr v
+  | some r => showResult r.hdr r.data
+
+def showResSorted : Option Result → String
+  | some ⟨h, .dict d⟩ => showResult h (.dict (sortTop d))
+  | r => showRes r
 
 def tableOf : String → Option (List BlockDef)
   | "base" => some baseBlocks | "site" => some siteBlocks | "disc" => some discBlocks
@@ -73,7 +65,8 @@ def tableOf : String → Option (List BlockDef)
 
 def convOf : String → Option Conv
   | "epoch" => some .epoch | "exponent" => some .exponent | "dms2deg" => some .dms2deg
-  | "yyyydddsssss" => some .yyyydddsssss | "tuple" => some .tuple | _ => Option.none
+  | "yyyydddsssss" => some .yyyydddsssss | "tuple" => some .tuple | "none" => some .none | "utf8" => some .utf8
+  | _ => Option.none
 
 def showKind : Midgard.Spec.Sinex.Kind → String
   | .text => "text" | .int => "int" | .flt => "flt" | .epoch => "epoch" | .exp => "exp"
@@ -95,18 +88,33 @@ def handle : List String → Option String
   | ["c14", "markers"] => some (",".intercalate (baseBlocks.map (·.marker)))
   | ["c14", "base", sel, h] => do
     let bs ← pickBlocks sel; let t ← decodeText h
-    pure (parseFileCmd "base" bs baseHeader t)
-  | ["c14", "site", h] => do pure (parseFileCmd "site" siteBlocks siteHeader (← decodeText h))
-  | ["c14", "disc", h] => do pure (parseFileCmd "disc" discBlocks discHeader (← decodeText h))
-  | ["c14", "events", h] => do pure (parseFileCmd "events" eventsBlocks eventsHeader (← decodeText h))
-  | ["c14", "tro", h] => do pure (parseFileCmd "tro" troBlocks troHeader (← decodeText h))
+    pure (showRes (parseBaseFile baseHeader bs t))
+  | ["c14", "site", h] => do pure (showRes (parseSiteFile siteHeader siteBlocks (← decodeText h)))
+  | ["c14", "disc", h] => do pure (showRes (parseDiscFile discHeader discBlocks (← decodeText h)))
+  | ["c14", "events", h] => do pure (showRes (parseDiscFile eventsHeader eventsBlocks (← decodeText h)))
+  | ["c14", "tro", h] => do pure (showResSorted (parseTroFile troHeader troBlocks (← decodeText h)))
+  | ["c14", "tms", h] => do pure (showRes (parseTmsFile tmsHeader tmsBlocks (← decodeText h)))
+  | "c14" :: "ws" :: hs => do
+    -- whitespace mode of genfromtxt: the token rows (`RAISES` when the rows are ragged)
+    let ls ← hs.mapM decodeText
+    pure (match wsRows ls with
+      | Option.none => "RAISES"
+      | some rows => "[" ++ ",".intercalate (rows.map fun r => "[" ++ ",".intercalate (r.map hx) ++ "]") ++ "]")
+  | "c14" :: "cut" :: starts :: total :: hs => do
+    -- fixed-width cutting alone: the stripped pieces of every line for the given start columns
+    let st ← parseList? (fun s => s.toNat?) starts; let total ← total.toNat?
+    let ls ← hs.mapM decodeText
+    let fs : List FieldDef := st.map fun c => ⟨"f" ++ toString c, c, .obj, .none⟩
+    pure ("[" ++ ",".intercalate (((ls.filter fun l => !(dropComment l).isEmpty).map (cutLine fs total)).map fun r =>
+      "[" ++ ",".intercalate (r.map hx) ++ "]") ++ "]")
   | "c14" :: "lines" :: tbl :: bi :: total :: hs => do
     let T ← tableOf tbl; let b ← T[← bi.toNat?]?; let total ← total.toNat?
     let ls ← hs.mapM decodeText
     pure (showVal (.list ((parseLines b.fields total ls).map rowVal)))
   | ["c14", "cell", c, dt, h] => do
     let c ← convOf c; let t ← decodeText h
-    let d : DType := if dt = "f8" then .f8 else .obj
+    let d : DType := if dt = "f8" then .f8 else if dt = "i8" then .i8
+      else if dt.startsWith "U" then .u ((dt.drop 1).toNat?.getD 0) else .obj
     pure (showCell (convertCell ⟨"x", 0, d, c⟩ t))
   | _ => Option.none
 
